@@ -31,6 +31,12 @@ VP_LOCK_LIST(VP_DECL)
 #undef VP_DECL
 
 int vp_held[VP_NLOCKS];
+/* atomic read-modify-write sections (contracts/locks.json "atomic_sections"): the unit of a listed function sets vp_rmw_lock;
+ * the read callee's contract opens the section, every release of that lock while it is open marks it broken, the write
+ * callee's contract checks it */
+int vp_rmw_lock; _Bool vp_rmw_open, vp_rmw_broken;
+/* per-unit waiver of the guarded-access obligation (contracts/locks.json immutable_part_reads) */
+_Bool vp_waived[VP_NLOCKS];
 /* event counter for the control-flow variant of the engine (C09/C16/C20) */
 unsigned vp_events;
 
@@ -60,6 +66,7 @@ unsigned vp_events;
 	__CPROVER_assert(vp_id_ >= 0, "C11.known_lock: unlock of an object that is not one of the library's 15 locks"); \
 	if (vp_id_ >= 0) { \
 		__CPROVER_assert(vp_held[vp_id_] != 0, "C11.unlock_held: unlock of a lock this thread does not hold"); \
+		if (vp_rmw_open && vp_id_ == vp_rmw_lock) vp_rmw_broken = 1; \
 		if (vp_held[vp_id_] > 0) vp_held[vp_id_] = vp_held[vp_id_] - 1; else vp_held[vp_id_] = 0; \
 	} \
 	0; })
